@@ -145,6 +145,15 @@ def main(tier, seed, t0):
                           key='C10/split-identity', construct='src/parser/attr.rs::parse_attrs / src/parser/feature.rs::FeatureParser::parse')
         else:
             ctx.ok('split-identity', n=len(ms) - 1)
+    # ---- legal spellings of documented configurations (empty parameter lists, trailing commas, raw / escaped strings, parameter order,
+    # many attributes): the same cases C13 keeps as twins are accept witnesses of this property
+    from corpus import rejects as RJ
+    sp = [c for c in RJ.c13_cases(tier) if c['class'].startswith('spelling/') or c['class'].endswith('/twin') or c['class'] == 'form/empty-list-twin']
+    bst, br = runner.stage_batch('c10-spelling-' + tier, sp)
+    runner.judge_batch(ctx, sp, br, PROP, lambda c: 'src/parser/feature.rs / src/parser/params.rs (attribute syntax)')
+    ctx.programs |= {c['id'] for c in sp}
+    if len(sp) < 40:
+        ctx.error('only %d spelling witnesses' % len(sp))
     ctx.sample({'documented_catalogue': {k: {'modes': v['modes'], 'params': sorted(v['params'])} for k, v in list((doc or {}).items())[:6]}})
     ctx.sample({'witnessed_feature_mode_shape_cells': len(covers), 'instances': n})
     return runner.finish(PROP, tier, seed, 'other', ctx, t0,
